@@ -593,6 +593,45 @@ def check_lemma(db, s, lem):
         if bad:
             return "%s is also called from %s, which %s does not cover" % (f.name.replace("s3s::", ""), ", ".join(x.replace("s3s::", "") for x in bad[:3]), lem.get("covered_by"))
         return None
+    if kind == "callers-under-selector":
+        # every call of the enclosing function happens where `<selector>(<const>)` has answered Some - the same single-valued selector the
+        # callee's own lookup uses, so "present" means the same thing on both sides (a guard loosened to "at least one" no longer implies it)
+        from .. import guards, inline
+        f = db.root_of(b)
+        cs = [c for c in db.callers_of(f.name) if "::tests::" not in c[0].name]
+        if not cs:
+            return "no caller of %s found" % f.name
+
+        def under(x, xbi):
+            for fact in guards.dominating_facts(x, xbi):
+                arg = at = None
+                if fact[0] == "call" and fact[1].endswith("::is_some") and fact[2] is True:
+                    at = fact[3]
+                    arg = x.blocks[at]["term"]["args"][0]
+                elif fact[0] == "enum" and fact[2] == frozenset(["Some"]) and fact[3] is not None:
+                    arg = {"p": {"l": fact[3][0], "proj": []}}
+                if arg is None:
+                    continue
+                sl = flow.backward(x, arg, at=at)
+                direct = [t for _, t, _ in sl.calls if not flow.is_transparent(t) and not callee_def(t).endswith(("::as_ref", "::as_deref", "::copied", "::cloned"))]
+                if direct and all(callee_def(t).endswith(lem["selector"]) for t in direct) and \
+                        any(c.get("c") == "item" and c.get("def", "").endswith(lem["const"]) for c in sl.consts):
+                    return True
+            return False
+
+        def keep(db_, caller, term, callee):
+            if callee is not None and db_.root_of(callee).name == f.name:
+                return False
+            return inline.default_policy(db_, caller, term, callee)
+        keep.__name__ = "c04_keep_" + short(f.name)
+        for cb, cbi, ct in cs:
+            if under(cb, cbi):
+                continue
+            ib = inline.inlined(db, cb, keep)
+            inl = [xbi for xbi, xt in ib.calls() if callee_def(xt) == f.name]
+            if not inl or not all(under(ib, xbi) for xbi in inl):
+                return "%s is called at %s where %s(%s) is not known to have answered Some" % (short(f.name), cb.loc(cbi), lem["selector"], lem["const"])
+        return None
     if kind == "const-args":
         t = b.blocks[s["bi"]]["term"]
         for a in t["args"]:
